@@ -30,6 +30,9 @@ def fail_controls(fire):
     yield ("when", ("no",), False, ("fail",))
     yield ("when", ("no",), True, ("failstop",))
     yield ("when", ("last",), True, ("fail",))
+    yield ("arg", ("eq", fire), ("failstop",))
+    yield ("arg", ("gt", fire), ("failstop",))
+    yield ("arg", ("no",), ("failstop",))
 
 
 def programs(rng):
